@@ -3,6 +3,7 @@ package rules
 import (
 	"fmt"
 	"go/constant"
+	"go/types"
 	"strings"
 
 	"golang.org/x/tools/go/ssa"
@@ -23,6 +24,8 @@ func init() {
 	register("C08.a", ruleC08a)
 	register("C11.c", ruleC11c)
 	register("C12.b", ruleC12b)
+	register("C06.e", ruleC06e)
+	register("C08.b", ruleC08b)
 }
 
 // writeEvent is a decoded "write" event.
@@ -462,6 +465,14 @@ func ruleC11c(c *Ctx) []*report.Result {
 			r.Fail(shortFn(e.Fn.String())+" / user call without catchPanic", c.P.Pos(e.Instr.Pos()), "user code is entered without catchPanic on the frame's defer stack", e.Chain, "defers: "+e.Detail["defers"])
 		}
 	}
+	// the recovering deferred call runs after the restorers pushed later
+	for _, e := range eventsOf(a.It, "recoverer") {
+		if e.Detail["same"] == "true" {
+			r.Ok("recovering " + e.Detail["callee"] + " at " + c.P.Pos(e.Instr.Pos()) + " runs in the entry classification [" + e.Detail["entry"] + "]")
+		} else {
+			r.Fail(shortFn(e.Fn.String())+" / panic report classification", c.P.Pos(e.Instr.Pos()), "the deferred "+e.Detail["callee"]+" runs with ["+e.Detail["now"]+"] but the frame was entered with ["+e.Detail["entry"]+"]: the panic report (and the panic payload) is written in the classification of the failed call", e.Chain, e.Detail["now"])
+		}
+	}
 	r.Note(fmt.Sprintf("%d user-code entry sites in printer methods", sites))
 	if len(userFns) == 0 {
 		r.Undecide("no user-code entry found in printer methods")
@@ -512,4 +523,133 @@ func ruleC12b(c *Ctx) []*report.Result {
 		r.Undecide("newPrinter has no summary")
 	}
 	return []*report.Result{c.finish(r)}
+}
+
+// C06.e / C17.d: redact-specific dispatch is bypassed under Unsafe().
+func ruleC06e(c *Ctx) []*report.Result {
+	a := c.AFmt()
+	r := report.NewResult("C06.e", "user code reached by the printer through anything other than the four dispatch interfaces of package fmt (Formatter, GoStringer, Stringer, error) — i.e. SafeFormatter, SafeMessager and the func-typed error hook — is entered only with override != unsafe", 6)
+	for _, e := range eventsOf(a.It, "usercall") {
+		if recvNamed(e.Fn) != tPP || e.Detail["printer"] == "" && e.Detail["override"] == "" {
+			// not a printer method, or no printer configuration known
+		}
+		if recvNamed(e.Fn) != tPP {
+			continue
+		}
+		specific := true
+		if ci, ok := e.Instr.(ssa.CallInstruction); ok && ci.Common().IsInvoke() {
+			specific = !c.isFmtInterface(ci.Common().Value.Type())
+		}
+		if !specific {
+			continue
+		}
+		ov := e.Detail["override"]
+		if ov == "" {
+			// the printer is not an argument (SafeMessage()): use the frame's receiver
+			r.Note("no configuration for " + e.Detail["target"])
+			continue
+		}
+		if ov != "unsafe" {
+			r.Ok(e.Detail["target"] + " at " + c.P.Pos(e.Instr.Pos()) + " with override=" + ov)
+		} else {
+			r.Fail(shortFn(e.Fn.String())+" / "+e.Detail["target"], c.P.Pos(e.Instr.Pos()), "redact-specific rendering ("+e.Detail["target"]+") is dispatched under Unsafe(): the text is no longer what fmt prints for the operand", e.Chain, cfgString(e.Detail))
+		}
+	}
+	return []*report.Result{c.finish(r)}
+}
+
+// C08.b: a redactable operand flows only into a direct buffer write.
+func ruleC08b(c *Ctx) []*report.Result {
+	r := report.NewResult("C08.b", "in the printer, every value of static type RedactableString/RedactableBytes obtained from an operand (type-switch arm, assertion, or reflect String()/Bytes() in an arm proved redactable) is used only, after conversion, as the payload of a direct Buffer.Write/WriteString call, in a frame that deferred the pre-redactable restorer", 4)
+	lab := c.Labels()
+	for _, fn := range c.P.ModuleFunctions() {
+		if pkgPathOf(fn) != pkgRfmt {
+			continue
+		}
+		for _, b := range fn.Blocks {
+			for _, ins := range b.Instrs {
+				v, ok := ins.(ssa.Value)
+				if !ok {
+					continue
+				}
+				src := false
+				switch x := ins.(type) {
+				case *ssa.TypeAssert:
+					src = isRedactableType(x.AssertedType)
+				case *ssa.Call:
+					if f := x.Common().StaticCallee(); f != nil && strings.HasPrefix(f.String(), "(reflect.Value).") && lab.Of(x) == LRedOp {
+						src = true
+					}
+				}
+				if !src {
+					continue
+				}
+				bad := redactableUses(v, 0)
+				construct := shortFn(fn.String()) + " / redactable operand " + v.Name()
+				if len(bad) == 0 {
+					r.Ok(construct + " @" + c.P.Pos(ins.Pos()))
+				} else {
+					for _, u := range bad {
+						r.Fail(shortFn(fn.String())+" / redactable operand", c.P.Pos(u.Pos()), "a redactable operand is used by "+u.String()+" instead of being written raw: it is reformatted, re-escaped or re-enveloped", nil, "")
+					}
+				}
+			}
+		}
+	}
+	return []*report.Result{r}
+}
+
+// redactableUses follows v through conversions and tuple extraction and
+// returns the uses that are not direct buffer writes.
+func redactableUses(v ssa.Value, depth int) []ssa.Instruction {
+	var bad []ssa.Instruction
+	refs := v.Referrers()
+	if refs == nil || depth > 5 {
+		return nil
+	}
+	for _, u := range *refs {
+		switch x := u.(type) {
+		case *ssa.Extract:
+			if x.Index == 0 {
+				bad = append(bad, redactableUses(x, depth+1)...)
+			}
+		case *ssa.ChangeType:
+			bad = append(bad, redactableUses(x, depth+1)...)
+		case *ssa.Convert:
+			bad = append(bad, redactableUses(x, depth+1)...)
+		case *ssa.DebugRef:
+		case *ssa.If:
+		case *ssa.Call:
+			f := x.Common().StaticCallee()
+			if f != nil && recvNamed(f) == tBuffer && (f.Name() == "Write" || f.Name() == "WriteString") {
+				continue
+			}
+			bad = append(bad, u)
+		default:
+			bad = append(bad, u)
+		}
+	}
+	return bad
+}
+
+// isFmtInterface: t is identical to fmt.Formatter, fmt.Stringer,
+// fmt.GoStringer or error.
+func (c *Ctx) isFmtInterface(t types.Type) bool {
+	it, ok := t.Underlying().(*types.Interface)
+	if !ok {
+		return false
+	}
+	if types.Identical(it, types.Universe.Lookup("error").Type().Underlying()) {
+		return true
+	}
+	fp := c.P.SSA["fmt"]
+	if fp == nil {
+		return false
+	}
+	for _, n := range []string{"Formatter", "Stringer", "GoStringer"} {
+		if o := fp.Pkg.Scope().Lookup(n); o != nil && types.Identical(it, o.Type().Underlying()) {
+			return true
+		}
+	}
+	return false
 }
